@@ -1000,12 +1000,13 @@ fn update_flags_e2e(prop: &str, idx: u64, root: &Path) -> CaseRec {
 /// code line), an expression that ends in an empty continuation line, an empty expression. The document either passes
 /// (and must stay as it is) or has a stale second test that forces the rewriting of the whole file. Afterwards the
 /// shell expressions are the same, `scrut test` passes, a second update changes nothing.
-/// idx: shape (6) x format (2) x stale neighbour (2); shape 5 is stale itself: a stale first expectation in front of a
-/// kept one that starts like a continuation line
+/// idx: shape (7) x format (2) x stale neighbour (2); shape 5 is stale itself: a stale first expectation in front of a
+/// kept one that starts like a continuation line; shape 6 (Markdown only) has an inline configuration behind a
+/// no-break space, which YAML reads as part of the (then unknown, ignored) first key: the test validates stdout
 fn expression_shapes_e2e(prop: &str, idx: u64, root: &Path) -> CaseRec {
-    let shape = idx % 6;
-    let cram = (idx / 6) % 2 == 1;
-    let stale = (idx / 12) % 2 == 1;
+    let cram = (idx / 7) % 2 == 1;
+    let shape = if cram && idx % 7 == 6 { 0 } else { idx % 7 };
+    let stale = (idx / 14) % 2 == 1;
     let dir = fresh_dir(root, format!("s{idx}"));
     // (command lines, expectation lines incl. exit code) of the test under observation
     let (cmd, body): (Vec<&str>, Vec<&str>) = match shape {
@@ -1014,12 +1015,14 @@ fn expression_shapes_e2e(prop: &str, idx: u64, root: &Path) -> CaseRec {
         2 => (vec!["$ echo a", "> "], vec!["a"]),
         3 => (vec!["$ echo '> x'; echo y; (exit 2)"], vec!["[2]", "> x", "y"]),
         4 => (vec!["$ echo '> x'; echo '> z'"], vec!["[0]", "> x", "> z"]),
-        _ => (vec!["$ echo '> x'; echo last"], vec!["stale line", "> x", "last"]),
+        5 => (vec!["$ echo '> x'; echo last"], vec!["stale line", "> x", "last"]),
+        _ => (vec!["$ echo a; echo b >&2"], vec!["a"]),
     };
+    let cfg = if shape == 6 { " {\u{a0}output_stream: stderr}" } else { "" };
     let ind = if cram { "  " } else { "" };
     let block = |cmd: &[&str], body: &[&str]| -> String {
         let lines: Vec<String> = cmd.iter().chain(body.iter()).map(|l| format!("{ind}{l}\n")).collect();
-        if cram { format!("t\n{}", lines.concat()) } else { format!("# t\n\n```scrut\n{}```\n", lines.concat()) }
+        if cram { format!("t\n{}", lines.concat()) } else { format!("# t\n\n```scrut{}\n{}```\n", if cmd[0].starts_with("$ echo a; echo b") { cfg } else { "" }, lines.concat()) }
     };
     // (a Cram document is written back without a blank line at its end: none is put there)
     let mut doc = block(&cmd, &body);
@@ -1084,7 +1087,7 @@ pub fn run(ctx: &Ctx, prop: &str) {
     }
     let root = tmproot("shapes");
     std::fs::create_dir_all(&root).unwrap();
-    ctx.run_stream("cli-update-expression-shapes-e2e-exhaustive", 6 * 2 * 2, true, |idx| Some(expression_shapes_e2e(prop, idx, &root)));
+    ctx.run_stream("cli-update-expression-shapes-e2e-exhaustive", 7 * 2 * 2, true, |idx| Some(expression_shapes_e2e(prop, idx, &root)));
     let _ = std::fs::remove_dir_all(&root);
     let root = tmproot("update");
     std::fs::create_dir_all(&root).unwrap();
